@@ -563,12 +563,72 @@ def _norm(num, den):
         ks = [num[m] / den[m] for m in den]
         if all(abs(k - ks[0]) <= 1e-13 * abs(ks[0]) for k in ks):
             return Rat.const(ks[0])
+    q = _try_divide(num, den)
+    if q is not None:
+        return Rat(q)
     # common monomial factor of den moved to num
     lead = sorted(den.items(), key=lambda mc: repr(_pkey({mc[0]: 1})))[0][1]
     if abs(lead - 1) > 1e-15:
         num = {m: c / lead for m, c in num.items()}
         den = {m: c / lead for m, c in den.items()}
     return Rat(num, den)
+
+
+def _try_divide(num, den, max_steps=400):
+    """Exact multivariate (Laurent) polynomial division num/den; None if den does not divide num."""
+    atoms = sorted(set(a for p in (num, den) for m in p for a, e in m), key=lambda a: repr(a.key()))
+    if not atoms or len(den) < 2:
+        return None
+    idx = {a: i for i, a in enumerate(atoms)}
+
+    def vec(m):
+        v = [Fraction(0)] * len(atoms)
+        for a, e in m:
+            v[idx[a]] = e
+        return tuple(v)
+
+    def shift(p):
+        vs = {vec(m): c for m, c in p.items()}
+        mins = [min(v[i] for v in vs) for i in range(len(atoms))]
+        return {tuple(v[i] - mins[i] for i in range(len(atoms))): c for v, c in vs.items()}, mins
+
+    n, nmin = shift(num)
+    d, dmin = shift(den)
+    dl = max(d)
+    dlc = d[dl]
+    quo = {}
+    scale = max(abs(c) for c in n.values())
+    for _ in range(max_steps):
+        if not n:
+            break
+        nl = max(n)
+        if any(nl[i] < dl[i] for i in range(len(atoms))):
+            return None
+        qv = tuple(nl[i] - dl[i] for i in range(len(atoms)))
+        qc = n[nl] / dlc
+        quo[qv] = quo.get(qv, 0.0) + qc
+        for dv, dc in d.items():
+            t = tuple(qv[i] + dv[i] for i in range(len(atoms)))
+            c = n.get(t, 0.0) - qc * dc
+            if abs(c) <= 1e-12 * scale:
+                n.pop(t, None)
+            else:
+                n[t] = c
+    if n:
+        return None
+    out = {}
+    for qv, qc in quo.items():
+        d2 = {}
+        for i, a in enumerate(atoms):
+            e = qv[i] + nmin[i] - dmin[i]
+            if e != 0:
+                d2[a] = e
+        res = _mono_norm(d2)
+        if res[0] == "X":
+            return None
+        cf, mono = res
+        out[mono] = out.get(mono, 0.0) + cf * qc
+    return {m: c for m, c in out.items() if c != 0}
 
 
 def simplify_ratio(q):
